@@ -7,6 +7,9 @@ Helper for the seeded changes under /verif/seeded (independently written breakin
   seedtool.py detect <patch.diff> <property> [check.py args]
                                                 apply the patch to /repo, run the property's check (output to a scratch
                                                 directory, not /verif/evidence), undo the patch straight afterwards
+  seedtool.py detect-all [--reduced N] [--resume LOG] --tier quick
+  seedtool.py benign-all --tier quick           regressions of the harness over /verif/seeded and /verif/benign, each
+                                                change applied to a scratch copy of /repo/src (removed afterwards)
 """
 import glob
 import json
@@ -82,8 +85,48 @@ def detect(patch, prop, extra):
         shutil.rmtree(out_dir, ignore_errors=True)
 
 
+def scratch_copy(patch):
+    """a copy of /repo's working tree source with the patch applied, outside /repo and /verif; None if it does not apply"""
+    root = tempfile.mkdtemp(prefix="seed-copy-")
+    shutil.copytree("/repo/src", os.path.join(root, "src"))
+    if patch and os.path.exists(patch) and os.path.getsize(patch):
+        code, _ = sh(["patch", "-s", "-p1", "-i", os.path.abspath(patch)], cwd=root)
+        if code != 0:
+            shutil.rmtree(root, ignore_errors=True)
+            return None
+    return root
+
+
+def pop_option(extra, name, with_value=True):
+    if name not in extra:
+        return None
+    index = extra.index(name)
+    value = extra[index + 1] if with_value else True
+    del extra[index:index + (2 if with_value else 1)]
+    return value
+
+
 def detect_all(extra):
-    """regression run: every seeded change against its check; results to selftest_results/seeded.json"""
+    """
+    regression run: every seeded change against its check; results to selftest_results/seeded.json
+      --reduced N      first try with --runs N (the first N seeds of the tier: a detection there is a detection of the
+                       tier); only what that misses is run with the full budget
+      --resume LOG     keep the entries of an earlier, interrupted run (its JSON lines) that were run at the full budget
+    Every change is applied to a scratch copy of /repo/src (AHBICHT_SRC), never to /repo itself.
+    """
+    extra = list(extra)
+    reduced = pop_option(extra, "--reduced")
+    resume = pop_option(extra, "--resume")
+    resume_props = (pop_option(extra, "--resume-props") or "C10,C11,C12,C13,C15,C16").split(",")
+    earlier = {}
+    if resume:
+        for line in open(resume, encoding="utf-8"):
+            try:
+                entry = json.loads(line)
+            except ValueError:
+                continue
+            if entry.get("status") == "detected" and entry.get("property") in resume_props:
+                earlier[entry["id"]] = entry
     results = []
     for seed_dir in sorted(glob.glob("/verif/seeded/*/")):
         meta = json.load(open(os.path.join(seed_dir, "meta.json"), encoding="utf-8"))
@@ -96,25 +139,44 @@ def detect_all(extra):
             results.append({"id": meta["id"], "property": prop, "status": "thorough-tier-only (not run)"})
             print(json.dumps(results[-1]), flush=True)
             continue
-        out_dir = tempfile.mkdtemp(prefix="seed-detect-")
-        code, out = sh(["git", "-C", "/repo", "apply", os.path.join(seed_dir, "patch.diff")])
-        if code != 0:
+        if meta["id"] in earlier:
+            results.append(earlier[meta["id"]])
+            print(json.dumps(results[-1]), flush=True)
+            continue
+        root = scratch_copy(os.path.join(seed_dir, "patch.diff"))
+        if root is None:
             results.append({"id": meta["id"], "property": prop, "status": "PATCH-DOES-NOT-APPLY"})
+            print(json.dumps(results[-1]), flush=True)
             continue
         try:
-            code, out = sh([PY, "/verif/check.py", prop] + extra, env=dict(os.environ, VERIF_OUT=out_dir), timeout=7200)
+            env = dict(os.environ, AHBICHT_SRC=os.path.join(root, "src"), VERIF_OUT=os.path.join(root, "out"))
+            attempts = ([["--runs", reduced]] if reduced else []) + [[]]
+            for attempt in attempts:
+                code, out = sh([PY, "/verif/check.py", prop] + extra + attempt, env=env, timeout=7200)
+                detected = code == 1 and f"VIOLATION property={prop}" in out
+                if detected:
+                    break
+            # the minimised replay files describe the change, not the harness: on the tree as it is they are quiet
+            replays = sorted(glob.glob(os.path.join(root, "out", "replays", "*.json")))
+            quiet = 0
+            for replay in replays:
+                replay_code, _ = sh([PY, "/verif/check.py", "--replay", replay],
+                                    env=dict(os.environ, AHBICHT_SRC="/repo/src", VERIF_OUT=os.path.join(root, "out2")),
+                                    timeout=900)
+                quiet += replay_code == 0
         finally:
-            sh(["git", "-C", "/repo", "checkout", "--", "."])
-            sh(["git", "-C", "/repo", "clean", "-fdq", "src"])
-            shutil.rmtree(out_dir, ignore_errors=True)
+            shutil.rmtree(root, ignore_errors=True)
         clauses = sorted({line.split("clause=")[1].split(" ")[0] for line in out.splitlines()
                           if line.strip().startswith("clause=")})
         summary = [line for line in out.splitlines() if line.startswith("property=")]
         failing = summary[-1].split("failing=")[1].split(" ")[0] if summary else "?"
-        detected = code == 1 and f"VIOLATION property={prop}" in out
+        runs = summary[-1].split("runs=")[1].split(" ")[0] if summary else "?"
         entry = {"id": meta["id"], "property": prop, "status": "detected" if detected else "MISSED", "exit": code,
-                 "failing_runs": failing, "clauses": clauses, "unstable_replay": "UNSTABLE-REPLAY" in out,
-                 "harness_error": "HARNESS-ERROR" in out}
+                 "failing_runs": failing, "of_runs": runs, "clauses": clauses,
+                 "unstable_replay": "UNSTABLE-REPLAY" in out, "harness_error": "HARNESS-ERROR" in out,
+                 "replays_quiet_on_the_unchanged_tree": f"{quiet}/{len(replays)}"}
+        if detected and quiet != len(replays):
+            entry["status"] = "REPLAY-FAILS-ON-UNCHANGED-TREE"
         print(json.dumps(entry), flush=True)
         results.append(entry)
     os.makedirs("/verif/selftest_results", exist_ok=True)
@@ -132,25 +194,21 @@ def benign_all(extra):
     for benign_dir in sorted(glob.glob("/verif/benign/*/")):
         meta = json.load(open(os.path.join(benign_dir, "meta.json"), encoding="utf-8"))
         prop = meta["property_check_that_alarms"][:3]
-        out_dir = tempfile.mkdtemp(prefix="seed-detect-")
-        patch = os.path.join(benign_dir, "patch.diff")
-        if os.path.exists(patch) and os.path.getsize(patch):  # (no patch: a false alarm on the unchanged library)
-            code, out = sh(["git", "-C", "/repo", "apply", patch])
-            if code != 0:
-                results.append({"id": os.path.basename(benign_dir.rstrip("/")), "status": "PATCH-DOES-NOT-APPLY"})
-                print(json.dumps(results[-1]))
-                continue
+        root = scratch_copy(os.path.join(benign_dir, "patch.diff"))  # (no patch: a false alarm on the unchanged library)
+        if root is None:
+            results.append({"id": os.path.basename(benign_dir.rstrip("/")), "status": "PATCH-DOES-NOT-APPLY"})
+            print(json.dumps(results[-1]))
+            continue
         try:
-            env = dict(os.environ, VERIF_OUT=out_dir, **(meta.get("env") or {}))
+            env = dict(os.environ, AHBICHT_SRC=os.path.join(root, "src"), VERIF_OUT=os.path.join(root, "out"),
+                       **(meta.get("env") or {}))
             code, out = sh([PY, "/verif/check.py", prop] + extra, env=env, timeout=7200)
             for replay in meta.get("replays") or []:
                 replay_code, replay_out = sh([PY, "/verif/check.py", "--replay", os.path.join(benign_dir, replay)],
                                              env=env, timeout=600)
                 code, out = max(code, replay_code), out + replay_out
         finally:
-            sh(["git", "-C", "/repo", "checkout", "--", "."])
-            sh(["git", "-C", "/repo", "clean", "-fdq", "src"])
-            shutil.rmtree(out_dir, ignore_errors=True)
+            shutil.rmtree(root, ignore_errors=True)
         entry = {"id": os.path.basename(benign_dir.rstrip("/")), "property": prop, "exit": code,
                  "status": "quiet" if code == 0 and "VIOLATION" not in out else "FALSE-ALARM"}
         print(json.dumps(entry), flush=True)
